@@ -33,10 +33,11 @@ PROPS = {
     "C16": dict(prop_file="props/C16.v", generators=ENG + ["T-tables"], module="harness.p_dyn",
                 slice="ToFunction.v with declared parameters vs the compiled function",
                 trusted=DYN_TRUST + ["ToFunction.v (hand-written; tied by the compile correspondence)"]),
-    "C06": dict(prop_file="props/C06.v", generators=[], module="harness.p_valid",
+    "C06": dict(prop_file="props/C06.v", generators=["T-tables"], module="harness.p_valid",
                 slice="Validity.v (verdict, message kinds) vs Network.is_valid on exhaustive small graphs and random graphs",
                 trusted=["no axioms", "Validity.v / Graph.v as models of Network.is_valid and the networkx graph (tied by the correspondence)",
-                         "the nine conditions as formalised in specs/C06_spec.v"]),
+                         "the nine conditions as formalised in specs/C06_spec.v",
+                         "translator facts.py (report / raise sites of Network.is_valid -> gen/Tables.v)"]),
     "C08": dict(prop_file="props/C08.v", generators=["T-tables"], module="harness.p_hist",
                 slice="Construct.v + Cache.v (generated invalidation table) vs Network on histories of calls and reads",
                 trusted=["no axioms", "Construct.v / Cache.v as models of networkx.DiGraph, functools.cached_property and "
@@ -53,10 +54,11 @@ PROPS = {
     "C10": dict(prop_file="props/C10.v", generators=ENG, module="harness.p_dyn",
                 slice="Blocks.v trees vs CasADi functions; Jacobian sparsity vs variable sets of the Spec trees",
                 trusted=DYN_TRUST + ["locality is stated on Spec.v values; model_locality composes it with C01 for the regenerated engines"]),
-    "C11": dict(prop_file="props/C11.v", generators=ENG, module="harness.p_dyn",
+    "C11": dict(prop_file="props/C11.v", generators=ENG + ["T-tables"], module="harness.p_dyn",
                 slice="Blocks.v trees under a clamping option set vs NumPy step and CasADi functions",
                 trusted=["FunctionalExtensionality.functional_extensionality_dep (the only axiom; theorems hold for every numeric structure)",
-                         "hand-written element-layer model Blocks.v (tied by the dynamics correspondence)"]),
+                         "hand-written element-layer model Blocks.v (tied by the dynamics correspondence)",
+                         "translator facts.py (option defaults and phases of Network.step -> gen/Tables.v)"]),
     "C12": dict(prop_file="props/C12.v", generators=["T-tables"], module="harness.p_dyn",
                 slice="Lifecycle.v vs the implementation on lifecycle histories; Blocks.v trees vs NumPy/CasADi on re-used objects",
                 trusted=["no axioms", "Lifecycle.v as model of the variable slots (tied by lifecycle histories)",
